@@ -22,13 +22,15 @@ POOL = [1, 4, 5, 6, 7]
 
 def case_strategy():
     from hypothesis import strategies as st
-    kd = st.tuples(st.sampled_from(['signing', 'signing', 'encryption', None]), st.sampled_from(POOL + ['keyname'])).map(list)
+    kd = st.tuples(st.sampled_from(['signing', 'signing', 'encryption', None]), st.sampled_from(POOL + ['keyname', 'damaged'])).map(list)
     fed = st.one_of(st.lists(st.lists(kd, max_size=3), min_size=2, max_size=4), st.lists(st.lists(kd, max_size=3), min_size=2, max_size=4), st.just([]))   # [] = no metadata source at all
     msg = st.fixed_dictionaries({'issuer': st.integers(0, 4), 'key': st.sampled_from(POOL), 'keyinfo': st.sampled_from(['none', 'signer-cert', 'other-cert', 'signer-rsa', 'other-rsa', 'signer-cert']),
                                  'other': st.sampled_from(POOL), 'level': st.sampled_from(['response', 'assertion', 'both']), 'alg': st.sampled_from(['sha1', 'sha256']),
                                  'r_issuer': st.sampled_from([None, None, None, 0, 1, 2, 3, 4]),
                                  # another consumer of the same long-lived store asks for the issuer's certificates of this use just before the message arrives
-                                 'pre_lookup': st.sampled_from([None, None, 'encryption', 'signing'])})
+                                 'pre_lookup': st.sampled_from([None, None, 'encryption', 'signing']),
+                                 # after signing, an algorithm identifier is replaced by one the tool does not implement: the run ends without a verdict, the signature verifies under no key
+                                 'no_verdict': st.sampled_from([None, None, None, 'SignatureMethod', 'DigestMethod', 'CanonicalizationMethod'])})
     # where an entity's key descriptors live: an IdP role descriptor, a stand-alone attribute authority, or split (IdP descriptor without keys + AA descriptor with them)
     roles = st.lists(st.sampled_from(['idp', 'idp', 'aa', 'split']), min_size=4, max_size=4)
     # certificate look-ups by another consumer of the store (an IdP encrypting for the peer, a metadata export ...) before the first message arrives: (entity, use)
@@ -68,22 +70,32 @@ def run(case):
         issuer = IDPS[m['issuer']] if m['issuer'] < len(fed) else UNKNOWN
         trusted = []
         if m['issuer'] < len(fed):
-            trusted = [k for u, k in fed[m['issuer']] if u in ('signing', None) and k != 'keyname']
+            trusted = [k for u, k in fed[m['issuer']] if u in ('signing', None) and k not in ('keyname', 'damaged')]
         ki = {'none': None, 'signer-cert': ('x509', world.cert_body(m['key'])), 'other-cert': ('x509', world.cert_body(m['other'])),
               'signer-rsa': build.rsa_keyvalue(m['key']), 'other-rsa': build.rsa_keyvalue(m['other'])}[m['keyinfo']]
         r, a = build.standard(now, idp_entity=issuer)
         # the Response may name another entity as its Issuer than the Assertion inside it: each signature is judged under the Issuer of the element that carries it
         ri = m.get('r_issuer')
         r_issuer = issuer if ri is None else (IDPS[ri] if ri < len(fed) else UNKNOWN)
-        r_trusted = trusted if ri is None else ([k for u, k in fed[ri] if u in ('signing', None) and k != 'keyname'] if ri < len(fed) else [])
+        r_trusted = trusted if ri is None else ([k for u, k in fed[ri] if u in ('signing', None) and k not in ('keyname', 'damaged')] if ri < len(fed) else [])
         r['issuer'] = r_issuer
         try:
             doc = build.render(r, [a], sign_response=m['key'] if m['level'] in ('response', 'both') else None,
                                sign_assertions=m['key'] if m['level'] in ('assertion', 'both') else None, alg=m['alg'], keyinfo=ki)
         except RuntimeError:
             continue
+        if m.get('pre_lookup'):
+            try:
+                sp.metadata.certs(issuer, 'any', m['pre_lookup'])
+            except Exception:
+                pass
+        if m.get('no_verdict'):
+            import re
+            doc = re.sub(r'(<ds:%s Algorithm=")[^"]*"' % m['no_verdict'], r'\1urn:verif:not-implemented"', doc)
         v = spside.deliver(sp, doc)
         def ok_under(tr):
+            if m.get('no_verdict'):
+                return False
             return m['key'] in tr or (not case['only_md'] and not tr and m['keyinfo'] == 'signer-cert')
         allowed = (ok_under(trusted) if m['level'] in ('assertion', 'both') else True) and (ok_under(r_trusted) if m['level'] in ('response', 'both') else True)
         cls = []
@@ -92,6 +104,9 @@ def run(case):
             nt = True
         if m['keyinfo'] != 'none':
             cls.append(m['keyinfo'])
+            nt = True
+        if m.get('no_verdict'):
+            cls.append('no-verdict')
             nt = True
         if issuer == UNKNOWN:
             cls.append('unknown-issuer')
@@ -120,7 +135,7 @@ _idps = {}
 
 def request_strategy():
     from hypothesis import strategies as st
-    kd = st.tuples(st.sampled_from(['signing', 'signing', 'encryption', None]), st.sampled_from(POOL + ['keyname'])).map(list)
+    kd = st.tuples(st.sampled_from(['signing', 'signing', 'encryption', None]), st.sampled_from(POOL + ['keyname', 'damaged'])).map(list)
     fed = st.lists(st.lists(kd, max_size=3), min_size=2, max_size=3)
     msg = st.fixed_dictionaries({'issuer': st.integers(0, 3), 'key': st.sampled_from(POOL), 'keyinfo': st.sampled_from(['none', 'signer-cert', 'other-cert', 'signer-rsa']),
                                  'other': st.sampled_from(POOL), 'typ': st.sampled_from(['authn', 'logout']), 'alg': st.sampled_from(['sha1', 'sha256'])})
@@ -152,7 +167,7 @@ def run_requests(case):
                 pass
     for m in case['messages']:
         issuer = SPS[m['issuer']] if m['issuer'] < len(fed) else 'https://sp-unknown.example.org'
-        trusted = [k for u, k in fed[m['issuer']] if u in ('signing', None) and k != 'keyname'] if m['issuer'] < len(fed) else []
+        trusted = [k for u, k in fed[m['issuer']] if u in ('signing', None) and k not in ('keyname', 'damaged')] if m['issuer'] < len(fed) else []
         kind = m['keyinfo']
         if m['other'] == m['key'] and kind == 'other-cert':
             kind = 'signer-cert'
